@@ -7,7 +7,7 @@ def run(ver):
     binp = core.cargo_build("vh")
     for rich, mt in (("FALSE", {"quick": "4", "thorough": "5"}[ver.tier]), ("TRUE", {"quick": "3", "thorough": "4"}[ver.tier])):
         tag = f"mc_c19_rich{rich}_{mt}"
-        res = core.run_tlc("MC_C19", "MC_C19.cfg", wd, tag=tag, consts={"Rich": rich, "MaxTok": mt}, timeout=3000, coverage=True)
+        res = core.run_tlc("MC_C19", "MC_C19.cfg", wd, tag=tag, consts={"Rich": rich, "MaxTok": mt}, timeout=3000, coverage=(ver.tier == "quick"))
         core.tlc_failure(res, tag)
         ver.add_mc(res, f"MC_C19 Rich={rich} MaxTok={mt}: control-stack machine (repaired) on every token-group sequence; invariants Exact OutputBound WorkBound StackBound")
         core.replay_cases(ver, binp, res["out_path"], wd, tag)
